@@ -192,12 +192,35 @@ static void op_threadfirst(const V &a, V &r) {
 //   7 TGswSample(k=p2,N,l=p3) 8 TGswKey 9 LweKeySwitchKey(n,t=p2,bb=p3,nout=p4) 10 LweBootstrappingKey(n,k=p2,l=p3; t=2,bb=2) 11 TGswParams(l=p3) 12 LweParams
 //   13 TLweSample_array(m=p4,k=p2,N) 14 IntPolynomial_array(m=p2,N) 15 LagrangeHalfCPolynomial(N)  16 TGswSampleFFT(k,N,l) 17 TLweSampleFFT(k,N)
 static void op_ledger(const V &a, V &r) {
-    int ty = a[0]; int p1 = a[1], p2 = a[2], p3 = a[3], p4 = a[4];
+    int ty = a[0] % 100; const int mode = a[0] / 100;   // mode 1: the two-phase C API (alloc_ + init_, destroy_ + free_) instead of new_ / delete_
+    int p1 = a[1], p2 = a[2], p3 = a[3], p4 = a[4];
     LweParams *lp = new_LweParams(p1 > 0 ? p1 : 1, 0., 0.25), *lo = new_LweParams(p4 > 0 ? p4 : 1, 0., 0.25);
     TLweParams *tp = new_TLweParams(ty >= 20 ? 1024 : ty >= 5 && ty != 9 && ty != 12 ? (ty == 10 ? 1024 : p1) : 16, p2 > 0 ? p2 : 1, 0., 0.25); TGswParams *gp = new_TGswParams(p3 > 0 ? p3 : 1, 2, tp);
     torusPolynomialMultFFT; // (keeps the FFT symbols linked)
     { LagrangeHalfCPolynomial *w = new_LagrangeHalfCPolynomial(1024); delete_LagrangeHalfCPolynomial(w); }   // the thread's FFT processor is created on first use
+    LweBootstrappingKey *bk0 = 0;
+    if (ty == 33 || ty == 34) { bk0 = new_LweBootstrappingKey(2, 2, lp, gp);     // defined contents: the FFT key constructor converts them
+        for (int i = 0; i < lp->n; i++) tGswClear(&bk0->bk[i], gp);
+        for (int i = 0; i < bk0->ks->n; i++) for (int j = 0; j < bk0->ks->t; j++) for (int h = 0; h < bk0->ks->base; h++) lweClear(&bk0->ks->ks[i][j][h], lp); }
     void *obj = 0; reset_tab(); tracking = true;
+#define TWO(T, ...) { T *o_ = alloc_##T(); init_##T(o_, __VA_ARGS__); obj = o_; }
+#define TWOA(T, m_, ...) { T *o_ = alloc_##T##_array(m_); init_##T##_array(m_, o_, __VA_ARGS__); obj = o_; }
+#define UNTWO(T) { destroy_##T((T *) obj); free_##T((T *) obj); }
+#define UNTWOA(T, m_) { destroy_##T##_array(m_, (T *) obj); free_##T##_array(m_, (T *) obj); }
+    if (mode == 1) switch (ty) {
+        case 0: TWO(LweSample, lp) break; case 1: TWOA(LweSample, p2, lp) break; case 2: TWO(LweKey, lp) break;
+        case 3: TWO(TorusPolynomial, p1) break; case 4: TWO(IntPolynomial, p1) break; case 5: TWO(TLweSample, tp) break; case 6: TWO(TLweKey, tp) break;
+        case 7: TWO(TGswSample, gp) break; case 8: TWO(TGswKey, gp) break; case 9: TWO(LweKeySwitchKey, p1, p2, p3, lo) break;
+        case 10: TWO(LweBootstrappingKey, 2, 2, lp, gp) break; case 11: TWO(TGswParams, p3, 2, tp) break; case 12: TWO(LweParams, p1, 0., 0.25) break;
+        case 13: TWOA(TLweSample, p4, tp) break; case 14: TWOA(IntPolynomial, p2, p1) break; case 15: TWO(LagrangeHalfCPolynomial, p1) break;
+        case 16: TWO(TGswSampleFFT, gp) break; case 17: TWO(TLweSampleFFT, tp) break;
+        case 20: TWOA(LweKey, p4, lp) break; case 21: TWOA(TorusPolynomial, p4, p1) break; case 22: TWOA(TLweKey, p4, tp) break;
+        case 23: TWOA(TGswSample, p4, gp) break; case 24: TWOA(TGswKey, p4, gp) break; case 25: TWOA(LweKeySwitchKey, p4, 3, 2, 1, lo) break;
+        case 26: TWOA(LweBootstrappingKey, p4, 2, 2, lp, gp) break; case 27: TWOA(LagrangeHalfCPolynomial, p4, p1) break;
+        case 28: TWOA(TGswSampleFFT, p4, gp) break; case 29: TWOA(TLweSampleFFT, p4, tp) break;
+        case 30: TWOA(LweParams, p4, p1, 0., 0.25) break; case 31: TWOA(TLweParams, p4, p1, p2, 0., 0.25) break; case 32: TWOA(TGswParams, p4, p3, 2, tp) break;
+        case 33: TWO(LweBootstrappingKeyFFT, bk0) break; case 34: TWOA(LweBootstrappingKeyFFT, p4, bk0) break;
+    } else
     switch (ty) {
         case 0: obj = new_LweSample(lp); break; case 1: obj = new_LweSample_array(p2, lp); break; case 2: obj = new_LweKey(lp); break;
         case 3: obj = new_TorusPolynomial(p1); break; case 4: obj = new_IntPolynomial(p1); break; case 5: obj = new_TLweSample(tp); break; case 6: obj = new_TLweKey(tp); break;
@@ -211,12 +234,23 @@ static void op_ledger(const V &a, V &r) {
         case 26: obj = new_LweBootstrappingKey_array(p4, 2, 2, lp, gp); break; case 27: obj = new_LagrangeHalfCPolynomial_array(p4, p1); break;
         case 28: obj = new_TGswSampleFFT_array(p4, gp); break; case 29: obj = new_TLweSampleFFT_array(p4, tp); break;
         case 30: obj = new_LweParams_array(p4, p1, 0., 0.25); break; case 31: obj = new_TLweParams_array(p4, p1, p2, 0., 0.25); break; case 32: obj = new_TGswParams_array(p4, p3, 2, tp); break;
+        case 33: obj = new_LweBootstrappingKeyFFT(bk0); break; case 34: obj = new_LweBootstrappingKeyFFT_array(p4, bk0); break;
     }
     tracking = false;
     r.push_back(sizeof(LweSample)); r.push_back(sizeof(LweKey)); r.push_back(sizeof(TorusPolynomial)); r.push_back(sizeof(TLweSample)); r.push_back(sizeof(TLweKey));
     r.push_back(sizeof(TGswSample)); r.push_back(sizeof(TGswKey)); r.push_back(sizeof(LweKeySwitchKey)); r.push_back(sizeof(LweBootstrappingKey)); r.push_back(sizeof(TGswParams)); r.push_back(sizeof(LweParams));
     r.push_back((ll) live_blocks); live_sizes(r);
     tracking = true;
+    if (mode == 1) switch (ty) {
+        case 0: UNTWO(LweSample) break; case 1: UNTWOA(LweSample, p2) break; case 2: UNTWO(LweKey) break; case 3: UNTWO(TorusPolynomial) break; case 4: UNTWO(IntPolynomial) break;
+        case 5: UNTWO(TLweSample) break; case 6: UNTWO(TLweKey) break; case 7: UNTWO(TGswSample) break; case 8: UNTWO(TGswKey) break; case 9: UNTWO(LweKeySwitchKey) break;
+        case 10: UNTWO(LweBootstrappingKey) break; case 11: UNTWO(TGswParams) break; case 12: UNTWO(LweParams) break; case 13: UNTWOA(TLweSample, p4) break; case 14: UNTWOA(IntPolynomial, p2) break;
+        case 15: UNTWO(LagrangeHalfCPolynomial) break; case 16: UNTWO(TGswSampleFFT) break; case 17: UNTWO(TLweSampleFFT) break;
+        case 20: UNTWOA(LweKey, p4) break; case 21: UNTWOA(TorusPolynomial, p4) break; case 22: UNTWOA(TLweKey, p4) break; case 23: UNTWOA(TGswSample, p4) break; case 24: UNTWOA(TGswKey, p4) break;
+        case 25: UNTWOA(LweKeySwitchKey, p4) break; case 26: UNTWOA(LweBootstrappingKey, p4) break; case 27: UNTWOA(LagrangeHalfCPolynomial, p4) break;
+        case 28: UNTWOA(TGswSampleFFT, p4) break; case 29: UNTWOA(TLweSampleFFT, p4) break; case 30: UNTWOA(LweParams, p4) break; case 31: UNTWOA(TLweParams, p4) break; case 32: UNTWOA(TGswParams, p4) break;
+        case 33: UNTWO(LweBootstrappingKeyFFT) break; case 34: UNTWOA(LweBootstrappingKeyFFT, p4) break;
+    } else
     switch (ty) {
         case 0: delete_LweSample((LweSample *) obj); break; case 1: delete_LweSample_array(p2, (LweSample *) obj); break; case 2: delete_LweKey((LweKey *) obj); break;
         case 3: delete_TorusPolynomial((TorusPolynomial *) obj); break; case 4: delete_IntPolynomial((IntPolynomial *) obj); break; case 5: delete_TLweSample((TLweSample *) obj); break;
@@ -229,9 +263,11 @@ static void op_ledger(const V &a, V &r) {
         case 26: delete_LweBootstrappingKey_array(p4, (LweBootstrappingKey *) obj); break; case 27: delete_LagrangeHalfCPolynomial_array(p4, (LagrangeHalfCPolynomial *) obj); break;
         case 28: delete_TGswSampleFFT_array(p4, (TGswSampleFFT *) obj); break; case 29: delete_TLweSampleFFT_array(p4, (TLweSampleFFT *) obj); break;
         case 30: delete_LweParams_array(p4, (LweParams *) obj); break; case 31: delete_TLweParams_array(p4, (TLweParams *) obj); break; case 32: delete_TGswParams_array(p4, (TGswParams *) obj); break;
+        case 33: delete_LweBootstrappingKeyFFT((LweBootstrappingKeyFFT *) obj); break; case 34: delete_LweBootstrappingKeyFFT_array(p4, (LweBootstrappingKeyFFT *) obj); break;
     }
     tracking = false;
     r.push_back(-1); r.push_back((ll) live_blocks); r.push_back((ll) live_bytes);
+    if (bk0) delete_LweBootstrappingKey(bk0);
     delete_TGswParams(gp); delete_TLweParams(tp); delete_LweParams(lo); delete_LweParams(lp);
 }
 // lifeleak: a whole lifecycle with the allocator tracked: blocks still live afterwards (parameter objects owned by the collector excepted: reported separately)
